@@ -216,9 +216,8 @@ def c01_family(tier):
     progs += dep_progs()
     progs, refused = valid(progs)
     if tier == 'quick':
-        want = ['sp_step2z', 'sp_tri2z', 'sp_triEz', 'sp_emptyz', 'sp_derpz', 'sp_lidxz', 'sp_nest3', 'sp_swapz', 'sp_inlz', 'sp_negz', 'sp_midz',
-                'su_tmtf_ctlo', 'su_ttmo_tmtn', 'su_btmo_ttmn', 'su_newf_tmto', 'su_nullf_ctlo',
-                'chain', 'fanout', 'wnew']
+        want = ['sp_tri2z', 'sp_triEz', 'sp_emptyz', 'sp_derpz', 'sp_lidxz', 'sp_nest3', 'sp_swapz', 'sp_inlz', 'sp_negz', 'sp_midz',
+                'su_tmtf_ctlo', 'su_btmo_ttmn', 'su_newf_tmto', 'chain', 'fanout']
         progs = [p for p in progs if p.name in want]
         missing = set(want) - set(p.name for p in progs)
         assert not missing or os.environ.get('VERIF_PTG_ONLY'), missing
@@ -242,8 +241,8 @@ def c02_family(tier):
             progs.append(startup_prog(fx, cx, fy, cy))
     progs, refused = valid(progs)
     if tier == 'quick':
-        want = ['chain', 'route', 'fanout', 'fanin', 'inin', 'wnew', 'tree', 'wave', 'nullfw', 'a2a', 'stride',
-                'twoout', 'route_cnt', 'inin_cnt', 'wave_cnt', 'su_tmtf_ttmo', 'su_btmo_tmtn', 'su_newf_ctlo']
+        want = ['chain', 'route', 'fanout', 'fanin', 'inin', 'wnew', 'tree', 'wave', 'nullfw', 'stride', 'twoout',
+                'inin_cnt', 'wave_cnt', 'su_btmo_tmtn', 'su_newf_ctlo']
         progs = [p for p in progs if p.name in want]
         missing = set(want) - set(p.name for p in progs)
         assert not missing or os.environ.get('VERIF_PTG_ONLY'), missing
